@@ -14,7 +14,7 @@ log=/tmp/seed/confirm-$id-$x.log; : > "$log"
 cd "$wt" || exit 2
 git checkout -q -- . ; git clean -qfd -e target >/dev/null 2>&1
 git checkout -q --detach "$head" || exit 2
-demo=$(ls $out/$x.demo.* 2>/dev/null | head -1)
+demo="${SEED_DEMO:-$(ls $out/$x.demo.* 2>/dev/null | head -1)}"; [ -z "$SEED_DEMO" ] && [ -f "$out/$x.demo.sh" ] && demo="$out/$x.demo.sh"
 [ -z "$demo" ] && { echo "$id-$x: no demo"; exit 2; }
 # safety: demos run as root; refuse scripts that delete/move/cd unless confined to the out dir's scratch
 if [ "${demo##*.}" != rs ] && [ -z "$SEED_REVIEWED" ] && grep -n -E "(^|[ =])(rm|rmdir|mv|cp_glob|cd|set_current_directory|temp_dir|exec|spawn)( |$)" "$demo" | grep -v "$out/scratch" | grep -q .; then
@@ -27,7 +27,7 @@ run_demo() {
     *.sh) cargo build -q -p duckscript_cli --offline >>"$log" 2>&1 || return 251
           (cd "$out" && timeout 300 sh "$demo") >>"$log" 2>&1; return $? ;;
     *.rs) crate=duckscript; grep -q -E "duckscriptsdk|duckscript_sdk" "$out/$x.meta.json" 2>/dev/null && crate=duckscript_sdk
-          pkg=duckscript; [ "$crate" = duckscript_sdk ] && pkg=duckscriptsdk
+          pkg=duckscript; [ -n "$SEED_CRATE" ] && crate="$SEED_CRATE"; [ "$crate" = duckscript_sdk ] && pkg=duckscriptsdk
           mkdir -p "$wt/$crate/tests"; cp "$demo" "$wt/$crate/tests/seed_demo_$x.rs"
           (cd "$wt" && timeout 900 cargo test -q -p $pkg --offline --test seed_demo_$x) >>"$log" 2>&1; rc=$?
           rm -f "$wt/$crate/tests/seed_demo_$x.rs"; rmdir "$wt/$crate/tests" 2>/dev/null; return $rc ;;
